@@ -6,8 +6,8 @@ L1_ASSUME = [
 ]
 
 
-def vc(sub, step, quick, thorough, shards_thorough=16, extra=None):
-    d = {"bin": "vchecks", "sub": sub, "step": step,
+def vc(sub, step, quick, thorough, shards_thorough=16, extra=None, produces=None):
+    d = {"bin": "vchecks", "sub": sub, "step": step, "produces": produces or [step],
          "cases": {"quick": quick, "thorough": thorough},
          "shards": {"quick": 1, "thorough": shards_thorough}}
     if extra:
@@ -20,7 +20,7 @@ L3_ASSUME = L1_ASSUME + [
     "generated receivers are compiled by rustc against /repo's working tree; receivers cover the generator's option grammar, not all Rust programs",
 ]
 GEN_MAIN = {"name": "l3main", "kind": "main", "n": {"quick": 300, "thorough": 300}}
-GEN_MAGIC = {"name": "l3magic", "kind": "magic", "n": {"quick": 0, "thorough": 0}}
+GEN_MAGIC = {"name": "l3magic", "kind": "magic", "n": {"quick": 200, "thorough": 200}}
 GEN_SHAPES = {"name": "l3shapes", "kind": "shapes", "n": {"quick": 96, "thorough": 2048}}
 GEN_SUGG = {"name": "l3sugg", "kind": "sugg", "n": {"quick": 100, "thorough": 100}}
 GEN_SUGG_OFF = {"name": "l3sugg_off", "kind": "sugg", "n": {"quick": 100, "thorough": 100}, "no_default_features": True}
@@ -55,7 +55,7 @@ CHECKS = {
     },
     "C02": {
         "packages": ["vchecks", "vgen"],
-        "steps": [l3("c02", "l3", 90000, 4800000)],
+        "steps": [l3("c02", "l3", 90000, 4800000), l3("c02-body", "body", 30000, 1600000, gen=GEN_MAGIC)],
         "assumptions": L3_ASSUME,
     },
     "C03": {
@@ -76,17 +76,17 @@ CHECKS = {
     },
     "C10": {
         "packages": ["vchecks"],
-        "steps": [vc("c10", "random", 60000, 3200000)],
+        "steps": [vc("c10", "random", 60000, 3200000, produces=["random", "exhaustive"])],
         "assumptions": L1_ASSUME + ["the rule table (harness/vchecks/src/c10.rs, DESIGN.md Appendix C) is the reading of the property statement; options the statement does not define (bound, word = false, valued from_ident, attributes on pass-through magic fields, n-tuples under element-level derives) are not generated"],
     },
     "C19": {
         "packages": ["vchecks"],
-        "steps": [vc("c19", "usage", 40000, 1600000)],
+        "steps": [vc("c19", "usage", 40000, 1600000, produces=["usage", "bounds"])],
         "assumptions": L1_ASSUME + ["the expected answer is known by construction (the generator labels every planted occurrence); binder lifetimes are drawn from a pool that is never queried"],
     },
     "C11": {
         "packages": ["vchecks"],
-        "steps": [vc("c11", "ints", 40000, 1600000)],
+        "steps": [vc("c11", "ints", 40000, 1600000, produces=["ints-exhaustive", "ints-random", "misc"])],
         "assumptions": L1_ASSUME + ["std's FromStr for the integer/float types is the reference; the harness's own arbitrary-precision radix conversion gives the decimal digits of unquoted literals"],
     },
     "C14": {
@@ -96,12 +96,12 @@ CHECKS = {
     },
     "C13": {
         "packages": ["vchecks"],
-        "steps": [vc("c13", "fragments", 20000, 800000)],
+        "steps": [vc("c13", "fragments", 20000, 800000, produces=["fragments", "lits", "numeric", "meta-pathlist"])],
         "assumptions": L1_ASSUME + ["syn parsing the fragment directly as the target type is the reference (differential); token comparison ignores punct spacing and invisible groups"],
     },
     "C15": {
         "packages": ["vchecks"],
-        "steps": [vc("c15", "lists", 40000, 1600000)],
+        "steps": [vc("c15", "lists", 40000, 1600000, produces=["lists", "routing"])],
         "assumptions": L1_ASSUME + ["the documented default chain (from_meta -> from_word/from_list/from_expr -> from_value -> from_bool/from_string/from_char) is read off the FromMeta trait docs"],
     },
     "C12": {
@@ -134,7 +134,7 @@ CHECKS = {
     },
     "C16": {
         "packages": ["vchecks", "vgen"],
-        "steps": [l3("c16", "magic", 40000, 3200000, gen=GEN_MAGIC)],
+        "steps": [l3("c16", "magic", 40000, 3200000, gen=GEN_MAGIC), vc("c16t", "fields-print", 20000, 800000)],
         "assumptions": L3_ASSUME,
     },
     "C17": {
